@@ -179,6 +179,11 @@ func (k Keeper) AddDeposit(ctx sdk.Context, receiverAddr, senderAddr sdk.AccAddr
 			// refresh stream data, since deposits and total streamed may have changed
 			// after claim stream call
 			stream, _ = k.GetStream(ctx, receiverAddr, senderAddr)
+		} else {
+			// nothing left to settle: the stream was drained earlier and has not been flowing since.
+			// The flow restarts now; keeping the old last outflow time would let the receiver claim
+			// for the whole unfunded gap out of the new deposit.
+			stream.LastOutflowTime = nowTime
 		}
 
 		// stream expired or new. Calculate from now
